@@ -111,6 +111,17 @@ def run(chk):
                     k += 1
                     fl2 = fl + (["CHECKLOCKTIMEVERIFY", "CHECKSEQUENCEVERIFY"] if opn.startswith("CHECK") and k % 2 else [])
                     opjobs.append(SessionJob("n%d:%s" % (k, opn), bytes([O[opn]]), st, fl2, "BASE", cmds=["steps"], cmp=D.CMP_C01))
+    # opcodes that produce numbers from counts (sizes, depths, results of arithmetic): the encodings across the one- / two-byte boundaries
+    for ln in (0, 1, 2, 126, 127, 128, 129, 200, 254, 255, 256, 257, 400, 520):
+        k += 1
+        opjobs.append(SessionJob("n%d:SIZE%d" % (k, ln), bytes([O["SIZE"]]), [b"\x11" * ln], [], ("BASE", "TAPSCRIPT")[k % 2], cmds=["steps"], cmp=D.CMP_C01))
+    for cnt in (0, 1, 16, 17, 127, 128, 129, 200, 255, 256, 257, 999):
+        k += 1
+        opjobs.append(SessionJob("n%d:DEPTH%d" % (k, cnt), bytes([O["DEPTH"]]), [b"\x01"] * cnt, [], "BASE", cmds=["steps"], cmp=D.CMP_C01))
+    for a_, b2 in ((127, 1), (128, 0), (-127, -1), (255, 1), (32767, 1), (-32768, 0), (8388607, 1), (2**31 - 1, 1), (-(2**31 - 1), -1), (2**31 - 1, 2**31 - 1)):
+        for opn in ("ADD", "SUB"):
+            k += 1
+            opjobs.append(SessionJob("n%d:%s" % (k, opn), bytes([O[opn]]), [G.scriptnum(a_), G.scriptnum(b2 if opn == "ADD" else -b2)], [], "BASE", cmds=["steps"], cmp=D.CMP_C01))
     divs0 = chk.validate("Trace_Session", opjobs, "c18ops")
     lines = num_lines(chk) + enc_lines(chk)
     chunk = 4000
